@@ -78,6 +78,10 @@ REQUIRED_COUNTERS = [
     'multi_not_admitted:enum', 'multi_not_admitted:range', 'multi_not_admitted_objects', 'multi_ranks_out_of_bounds',
     'multi_bad_scores', 'multi_bad_scores_nonnumeric', 'multi_malformed_score_items',
     'elim:multi_duplicated:ranked', 'elim:multi_duplicated_objects', 'elim:multi_not_admitted_objects', 'elim_multi_defect',
+    'levels_as:list', 'levels_as:tuple', 'levels_as:set', 'levels_as:frozenset', 'levels_as:dict_keys', 'levels_as:dict',
+    'levels_as:generator', 'levels_as:range', 'levels_as:str', 'score_substring_of_levels', 'score_empty_string',
+    'score_empty_string_vs_grades', 'score_other_type_than_levels', 'score_number_vs_grades', 'levels_caller_list_changed',
+    'bounds_as_list', 'caller_collections_changed', 'caller_dict_changed',
     'op:validate_seq', 'seq_valid_after_invalid', 'other_validator_first', 'elim_mixed_kinds',
     'ballot_len_0', 'ballot_len_1', 'ballot_len_50plus',
 ]
@@ -123,7 +127,7 @@ LEVEL_NOTE = ('Trusted: Lean kernel + propext/Classical.choice/Quot.sound; the c
               'bounds: depth <= 3, <= 6 members) and the abstractions listed under modelled_not_verified.')
 
 KINDS = ['person_party', 'person_indep', 'party', 'coalition', 'blank']
-STRS = ['a', 'b', 'c', 'd', '', 'P0', 'x', 'y', 'good', 'bad', 'zz', 'None']
+STRS = ['a', 'b', 'c', 'd', '', 'P0', 'x', 'y', 'good', 'bad', 'zz', 'None', 'ab', 'abc', 'abcd', 'bc', 'xy', 'ba']
 
 
 def sname(i):
@@ -308,7 +312,7 @@ def plain_bounds(b):
 
 def plain_val(val):
     """the configuration as the Lean model sees it: bounds as exact rationals"""
-    out = {k: v for k, v in val.items() if k != 'via'}
+    out = {k: v for k, v in val.items() if k not in ('via', 'levels_as', 'alias', 'bounds_as')}
     for k in ('count', 'total', 'n', 'range'):
         if k in out:
             out[k] = plain_bounds(out[k])
@@ -362,6 +366,55 @@ def mk_nominator(n):
 
 
 def mk_validator(val, pool):
+    """the real validator of a configuration; collections handed to the constructor (score levels, bound lists, bound /
+    checker dictionaries) are changed by the caller right after construction when val['alias'] is set: the validator must
+    have taken its own copy"""
+    after = []
+    v = _mk_validator(val, pool, after)
+    if val.get('alias'):
+        for f in after:
+            f()
+    return v
+
+
+def applicable_level_containers(levels):
+    """the containers in which a list of score levels can be handed over"""
+    kinds = ['list', 'tuple', 'generator', 'set', 'frozenset', 'dict_keys', 'dict']
+    if levels and all(is_str(x) and len(sname(x['s'])) == 1 for x in levels) and len(set(x['s'] for x in levels)) == len(levels):
+        kinds.append('str')
+    nums = [Fraction(x['n']) for x in levels if is_num(x) and not any(k in x for k in ('F', 'D', 'fl', 'bo'))]
+    if levels and len(nums) == len(levels) and all(f.denominator == 1 for f in nums) and nums == list(range(int(nums[0]), int(nums[0]) + len(nums))):
+        kinds.append('range')
+    return kinds
+
+
+def levels_container(kind, lv, after):
+    if kind == 'tuple':
+        return tuple(lv)
+    if kind == 'set':
+        return set(lv)
+    if kind == 'frozenset':
+        return frozenset(lv)
+    if kind == 'dict_keys':
+        return dict.fromkeys(lv).keys()
+    if kind == 'dict':
+        return dict.fromkeys(lv)
+    if kind == 'generator':
+        return (x for x in lv)
+    if kind == 'str':
+        return ''.join(lv)
+    if kind == 'range':
+        return range(lv[0], lv[0] + len(lv))
+    lv = list(lv)
+
+    def change():           # the caller goes on using its list
+        lv.clear()
+        lv.append('never a level')
+    after.append(change)
+    return lv
+
+
+def _mk_validator(val, pool, after):
     """the real validator of a configuration.  val['via'] == 'checkers': the scalar bounds are passed as explicit
     VoteMagnitudeChecker objects next to contradicting bound tuples (which must be ignored);
     val['via'] == 'plain_dicts': per-rank / per-count checkers are passed as explicit plain dictionaries."""
@@ -371,10 +424,22 @@ def mk_validator(val, pool):
     junk = (7, 7)
     nomkw = {} if val['nom'].get('default') else {'nominator': mk_nominator(val['nom'])}   # default: BasicNominator()
 
+    def bnd(b):
+        """a bound pair as tuple, or (val['bounds_as'] == 'list') as a list the caller changes afterwards"""
+        t = py_bounds(b)
+        if val.get('bounds_as') != 'list':
+            return t
+        lst = list(t)
+
+        def change():
+            lst[0], lst[1] = 99, -99
+        after.append(change)
+        return lst
+
     def scalar(bounds_kw, checker_kw, b, name='count'):
         if via == 'checkers':
-            return {bounds_kw: junk, checker_kw: vv.VoteMagnitudeChecker(py_bounds(b), name)}
-        return {bounds_kw: py_bounds(b)}
+            return {bounds_kw: junk, checker_kw: vv.VoteMagnitudeChecker(bnd(b), name)}
+        return {bounds_kw: bnd(b)}
 
     def mapping(bounds_kw, checker_kw, bm, name='count'):
         if bm is None:
@@ -383,6 +448,9 @@ def mk_validator(val, pool):
             # an explicit mapping of checkers: plain dict, read-only proxy, custom Mapping, or defaultdict with a factory;
             # the bounds argument is either omitted (its default must not come into force) or contradicting junk
             listed = {k: vv.VoteMagnitudeChecker(py_bounds(b), name) for k, b in bm['by']}
+            if bm['form'] != 'defaultdict':
+                # the caller's dictionary changes afterwards (a defaultdict is kept as the store by design)
+                after.append(lambda: (listed.clear(), listed.update({1: vv.VoteMagnitudeChecker((99, 99), name), 2: vv.VoteMagnitudeChecker((99, 99), name)})))
             if bm['form'] == 'plain':
                 m = listed
             elif bm['form'] == 'proxy':
@@ -399,7 +467,11 @@ def mk_validator(val, pool):
             return kw
         if via == 'plain_dicts' and 'by' in bm:
             return {bounds_kw: junk, checker_kw: {k: vv.VoteMagnitudeChecker(py_bounds(b), name) for k, b in bm['by']}}
-        return {bounds_kw: py_boundmap(bm)}
+        if 'all' in bm:
+            return {bounds_kw: bnd(bm['all'])}
+        d = {k: bnd(b) for k, b in bm['by']}
+        after.append(lambda: (d.clear(), d.update({1: (99, 99), 2: (99, 99)})))      # the caller's bounds dictionary changes
+        return {bounds_kw: d}
 
     if vt == 'simple':
         return vv.SimpleVoteValidator(**nomkw)
@@ -411,7 +483,8 @@ def mk_validator(val, pool):
     kw = dict(scalar('allowed_scorings', 'n_scorings_checker', val['n']))
     kw.update(mapping('sum_bounds', 'sum_checkers', val['sum'], 'sum'))
     if vt == 'enum':
-        return vv.EnumScoreVoteValidator([pool.build(x) for x in val['levels']], **nomkw, **kw)
+        lv = levels_container(val.get('levels_as', 'list'), [pool.build(x) for x in val['levels']], after)
+        return vv.EnumScoreVoteValidator(lv, **nomkw, **kw)
     if vt == 'range':
         kw.update(scalar('range', 'range_checker', val['range'], 'range vote value'))
         return vv.RangeVoteValidator(**nomkw, **kw)
@@ -1125,7 +1198,7 @@ def gen_ranked(rng, tags, hashable=False, nom=None):
     return {'vt': 'ranked', 'total': total, 'rank': rank, 'nom': nom}, {'t': ranks}
 
 
-LEVEL_SETS = [[S(0), S(1), N(1)], [N(-2), N(0), N(5)], [N(0), N(1), N(2), N(3)], [N(-1), N(0), N(1)], [S(8), S(9)], [S(6), S(7), N(1)], [N(Fraction(1, 2)), N(1), N(5)],
+LEVEL_SETS = [[S(0), S(1), S(2), S(3)], [S(6), S(7)], [S(0), S(1), N(1)], [N(-2), N(0), N(5)], [N(0), N(1), N(2), N(3)], [N(-1), N(0), N(1)], [S(8), S(9)], [S(6), S(7), N(1)], [N(Fraction(1, 2)), N(1), N(5)],
               [None, N(1)], [], [{'t': []}, {'f': [S(1), S(0)]}, N(1), Cd('party', 0)]]
 
 
@@ -1218,6 +1291,16 @@ def gen_score(rng, tags, vt, hashable=False, nom=None):
             if vt == 'enum':
                 numeric = [Fraction(x['n']) for x in levels if is_num(x) and Fraction(x['n']).denominator == 1]
                 miss = N(99)
+                onechar = [x for x in levels if is_str(x) and len(sname(x['s'])) == 1]
+                if onechar and len(onechar) == len(levels) and rng.random() < 0.7:
+                    # levels are one-character grades: scores that are concatenations / substrings of them, or empty
+                    joined = ''.join(sname(x['s']) for x in levels)
+                    subs = [S(i) for i in range(len(STRS)) if STRS[i] != '' and len(STRS[i]) > 1 and STRS[i] in joined]
+                    miss = rng.choice(subs + [S(4), S(4), S(17), N(1)])
+                elif levels and rng.random() < 0.25:
+                    miss = S(0) if all(is_num(x) for x in levels) else N(1) if all(is_str(x) for x in levels) else S(4)
+                    if any(ckey(miss) == ckey(x) for x in levels):
+                        miss = N(99)
                 if numeric and rng.random() < 0.5:
                     # a score that is no level but hashes like one: hash(-1) == hash(-2), hash(x) == hash(x + 2**61 - 1)
                     lv = rng.choice(numeric)
@@ -1297,6 +1380,57 @@ def with_via(rng, val, tags):
         val['via'] = 'plain_dicts'
         tags.append('via_plain_dicts')
     return val
+
+
+def with_containers(rng, val, tags):
+    """hand the collections over in every container the constructors admit (score levels as list / tuple / set / frozenset /
+    dict / dict keys / generator / range / str of one-character grades; bound pairs as lists), and let the caller change its
+    own collection after construction"""
+    val = dict(val)
+    if val['vt'] == 'enum' and rng.random() < 0.75:
+        val['levels_as'] = rng.choice(applicable_level_containers(val['levels']))
+        if val['levels_as'] in ('str', 'range') or rng.random() < 0.5:
+            pass
+        kinds = applicable_level_containers(val['levels'])
+        if 'str' in kinds and rng.random() < 0.5:
+            val['levels_as'] = 'str'
+        if 'range' in kinds and rng.random() < 0.4:
+            val['levels_as'] = 'range'
+    if val['vt'] != 'simple' and rng.random() < 0.25:
+        val['bounds_as'] = 'list'
+    if val['vt'] != 'simple' and rng.random() < 0.35:
+        val['alias'] = True
+    return val
+
+
+def level_score_tags(val, e):
+    tags = set()
+    if val['vt'] != 'enum':
+        return tags
+    tags.add('levels_as:' + val.get('levels_as', 'list'))
+    if val.get('alias') and val.get('levels_as', 'list') == 'list':
+        tags.add('levels_caller_list_changed')
+    levels = val['levels']
+    if e is None or 'f' not in e:
+        return tags
+    scores = [it['t'][1] for it in e['f'] if it is not None and 't' in it and len(it['t']) == 2]
+    lv = set(ckey(x) for x in levels)
+    onechar = bool(levels) and all(is_str(x) and len(sname(x['s'])) == 1 for x in levels)
+    joined = ''.join(sname(x['s']) for x in levels) if onechar else None
+    for sc in scores:
+        if ckey(sc) in lv:
+            continue
+        if is_str(sc) and sname(sc['s']) == '':
+            tags.add('score_empty_string')
+            if onechar:
+                tags.add('score_empty_string_vs_grades')
+        if onechar and is_str(sc) and len(sname(sc['s'])) > 1 and sname(sc['s']) in joined:
+            tags.add('score_substring_of_levels')
+        if levels and ((is_str(sc) and all(is_num(x) for x in levels)) or (is_num(sc) and all(is_str(x) for x in levels))):
+            tags.add('score_other_type_than_levels')
+            if onechar:
+                tags.add('score_number_vs_grades')
+    return tags
 
 
 def with_maps(rng, val, tags):
@@ -1499,6 +1633,21 @@ def directed(rng):
                                               'via': 'plain_dicts'},
                 'votes': [{'f': [{'t': [S(0), N(2)]}]}, {'f': [{'t': [S(0), N(2)]}, {'t': [S(1), N(5)]}]}, {'f': [{'t': [S(0), S(6)]}]},
                           {'f': [{'t': [S(0), N(3)]}]}, {'f': [{'t': [S(0), N(2)]}]}], '_tags': []})
+    # score levels in every container; grades given as one string; scores that are substrings / of another type / empty
+    grades = [S(0), S(1), S(2), S(3)]
+    for kind in ('list', 'tuple', 'set', 'frozenset', 'dict_keys', 'dict', 'generator', 'str'):
+        for sc in (S(0), S(12), S(13), S(14), S(15), S(4), S(17), N(1), None):
+            out.append(mk_case({'vt': 'enum', 'n': [None, None], 'sum': {'all': [None, None]}, 'nom': basic, 'levels': grades, 'levels_as': kind,
+                                'alias': kind == 'list'}, {'f': [{'t': [S(5), sc]}]}, ['level_containers']))
+    for kind in ('list', 'range', 'tuple', 'generator'):
+        for sc in (N(0), N(2), N(3), N(-1), S(0), S(4), N(1, F=True)):
+            out.append(mk_case({'vt': 'enum', 'n': [None, None], 'sum': {'all': [None, '5']}, 'nom': basic, 'levels': [N(0), N(1), N(2)],
+                                'levels_as': kind, 'alias': True, 'bounds_as': 'list'}, {'f': [{'t': [S(0), sc]}, {'t': [S(1), N(1)]}]},
+                               ['level_containers']))
+    out.append(mk_case({'vt': 'ranked', 'total': ['1', '3'], 'rank': {'by': [[1, ['1', '1']], [2, ['2', '2']]]}, 'nom': basic, 'alias': True,
+                        'bounds_as': 'list'}, {'t': [S(0), {'f': [S(1), S(2)]}]}, ['caller_dict_changed']))
+    out.append(mk_case({'vt': 'range', 'n': ['1', '2'], 'sum': {'by': [[2, ['3', '3']]], 'form': 'plain'}, 'range': ['0', '2'], 'nom': basic,
+                        'alias': True, 'bounds_as': 'list'}, {'f': [{'t': [S(0), N(1)]}, {'t': [S(1), N(2)]}]}, ['caller_dict_changed']))
     # several distinct candidates named twice, as objects / across shared ranks / strings mixed with an object
     pn = {'k': 'person', 'indep': True, 'blank': True}
     p0, p1, p2, p3 = (Cd('person_party', i) for i in (0, 1, 2, 4))
@@ -1566,6 +1715,7 @@ def gen_eliminate(rng, tags):
     val, _ = _gen_vt(rng, [], vt, True)
     if rng.random() < 0.6:
         val = _loosen(rng, val)
+    val = with_containers(rng, val, [])
     votes = []
     for _ in range(rng.randint(1, 7)):
         nom = val['nom'] if rng.random() < 0.9 else None
@@ -1619,7 +1769,7 @@ def gen_seq(rng):
         votes = [({'f': [{'t': [it['t'][0], rng.choice(val['levels'])]} if (it is not None and 't' in it and len(it['t']) == 2
                                                                              and rng.random() < 0.8) else it for it in v['f']]}
                   if (v is not None and 'f' in v and val['levels']) else v) for v in votes]
-    case = {'op': 'validate_seq', 'val': with_via(rng, val, tags), 'votes': votes, '_tags': tags}
+    case = {'op': 'validate_seq', 'val': with_containers(rng, with_via(rng, val, tags), tags), 'votes': votes, '_tags': tags}
     if rng.random() < 0.4:
         other, _ = _gen_vt(rng, [], vt, False)
         case['first'] = other
@@ -2016,6 +2166,7 @@ def _gen(rng, tier):
         val = with_via(rng, val, tags)
         if rng.random() < 0.25:
             val = with_maps(rng, val, tags)
+        val = with_containers(rng, val, tags)
         if rng.random() < 0.3:
             val = retype_bounds(rng, val)
         yield mk_case(val, vote, tags)
@@ -2297,6 +2448,13 @@ def generate(rng, tier):
             if val['vt'] in ('ranked', 'enum', 'range') and differs_from_default(val, c['vote']):
                 tags.append('explicit_differs_from_default')
             tags += sorted(multi_tags(val, c['vote']))
+            tags += sorted(level_score_tags(val, c['vote']))
+            if val.get('bounds_as') == 'list':
+                tags.append('bounds_as_list')
+            if val.get('alias'):
+                tags.append('caller_collections_changed')
+                if any(val.get(k) is not None and 'by' in val[k] and val[k].get('form') != 'defaultdict' for k in ('rank', 'sum')):
+                    tags.append('caller_dict_changed')
             bm = val.get('rank') if val['vt'] == 'ranked' else val.get('sum')
             e = c['vote']
             if bm is not None and 'by' in bm and e is not None and ('t' in e or 'f' in e):
@@ -2440,13 +2598,22 @@ def describe(case):
         rk = show_map('rank_vote_count_bounds', 'rank_vote_count_checkers', val.get('rank'))
         ctor = f"RankedVoteValidator(total_vote_count_bounds={py_bounds(val['total'])}{rk}, nominator={noms})"
     elif vt == 'enum':
-        ctor = (f"EnumScoreVoteValidator({[pool.build(x) for x in val['levels']]!r}, allowed_scorings={py_bounds(val['n'])}"
+        lv = [pool.build(x) for x in val['levels']]
+        kind = val.get('levels_as', 'list')
+        lvs = {'list': repr(lv), 'tuple': repr(tuple(lv)), 'set': f'set({lv!r})', 'frozenset': f'frozenset({lv!r})',
+               'dict_keys': f'dict.fromkeys({lv!r}).keys()', 'dict': f'dict.fromkeys({lv!r})', 'generator': f'(x for x in {lv!r})',
+               'str': repr(''.join(x for x in lv if isinstance(x, str))), 'range': (f'range({lv[0]}, {lv[0] + len(lv)})' if (lv and isinstance(lv[0], int)) else repr(lv))}[kind]
+        ctor = (f"EnumScoreVoteValidator({lvs}, allowed_scorings={py_bounds(val['n'])}"
                 f"{show_map('sum_bounds', 'sum_checkers', val['sum'])}, nominator={noms})")
     else:
         ctor = (f"RangeVoteValidator(range={py_bounds(val['range'])}, allowed_scorings={py_bounds(val['n'])}"
                 f"{show_map('sum_bounds', 'sum_checkers', val['sum'])}, nominator={noms})")
     if nom.get('flip'):
         ctor += ' [nominator flags set after construction]'
+    if val.get('bounds_as') == 'list':
+        ctor += ' [bound pairs given as lists]'
+    if val.get('alias'):
+        ctor += ' [the caller changes its own levels list / bound lists / dictionaries after construction]'
     if case['op'] == 'validate':
         return f"{ctor}.validate({pool.build(case['vote'])!r})"
     if case['op'] == 'validate_seq':
